@@ -92,7 +92,7 @@ def make_setver(R, ast, names, st, old_text, tdy, cls):
     if cls == "tag-downgrade":
         if not any(n in names for n in ("TAG", "PYTAG")):
             return None
-        i = ref.TAG_ORDER.index(st["tag"])
+        i = ref.TAG_ORDER.index("rc" if st["tag"] == "preview" else st["tag"])
         if i == 0:
             return None
         cand = dict(st, tag=R.choice(ref.TAG_ORDER[:i]))
